@@ -12,8 +12,13 @@ from bv.common import Property, Failure, time_limit, exc_name, CaseTimeout
 KINDS = ('list', 'tuple', 'iter', 'gen', 'str', 'bytes')
 # round 2: more input kinds (chunked_iter has type-specific paths: `not src`, isinstance str/bytes)
 KINDS2 = KINDS + ('bytearray', 'deque', 'range')
-REITERABLE = ('list', 'tuple', 'str', 'bytes', 'bytearray', 'deque', 'range')
-MUTABLE = ('list', 'bytearray', 'deque')
+# round 3: still more input kinds: a dict (its keys, distinct items only), a memoryview and an array of small ints
+# (sequences that are not list / str / bytes), a bare iterable (only __iter__: no len, no bool, no indexing)
+# and an old-style sequence (only __len__ / __getitem__)
+KINDS3 = KINDS2 + ('dict', 'memoryview', 'array', 'iterable', 'getitem')
+REITERABLE = ('list', 'tuple', 'str', 'bytes', 'bytearray', 'deque', 'range', 'dict', 'memoryview', 'array',
+              'iterable', 'getitem')
+MUTABLE = ('list', 'bytearray', 'deque', 'dict', 'array')
 KEYS_NUM = ('id', 'mod2', 'mod3', 'div2', 'const', 'bool', 'real', 'imag', 'den', 'nope')
 
 
@@ -32,7 +37,45 @@ def tag(c):
 
 def ikind(kind):
     """the item type of an input kind: 'str' (characters), 'bytes' (small ints) or 'list' (any item)"""
-    return 'str' if kind == 'str' else 'bytes' if kind in ('bytes', 'bytearray') else 'list'
+    return 'str' if kind == 'str' else 'bytes' if kind in ('bytes', 'bytearray', 'memoryview', 'array') else 'list'
+
+
+class BareIterable:
+    """an iterable with nothing but __iter__ (re-iterable; no __len__, no __getitem__)"""
+
+    def __init__(self, items):
+        self._items = list(items)
+
+    def __iter__(self):
+        return iter(list(self._items))
+
+
+class GetItemSeq:
+    """an old-style sequence: __len__ and __getitem__ only (iteration through the index protocol)"""
+
+    def __init__(self, items):
+        self._items = list(items)
+
+    def __len__(self):
+        return len(self._items)
+
+    def __getitem__(self, i):
+        if not isinstance(i, int):
+            raise TypeError('indices must be integers')
+        return self._items[i]
+
+
+def kind_ok(kind, codes):
+    """can an input of this kind hold exactly these item codes?"""
+    if kind == 'range':
+        return is_run(codes)
+    if kind == 'dict':
+        return len({cls(c) for c in codes}) == len(codes)
+    if ikind(kind) == 'bytes':
+        return all(c >= 1 and tag(c) == 0 and val(c) < 256 for c in codes)
+    if kind == 'str':
+        return all(c >= 1 and tag(c) == 0 for c in codes)
+    return True
 
 
 def dec(c, kind='list'):
@@ -56,6 +99,11 @@ def dec_fill(c, kind):
 
 class BadValue(Exception):
     pass
+
+
+class ChunkList(list):
+    """the chunks as code lists, plus the Python type name they all have (`ctype`; None when there is no chunk)"""
+    ctype = None
 
 
 def enc(o):
@@ -99,6 +147,19 @@ def mk_src(codes, kind):
         if not is_run(codes):
             raise BadCase('range input needs consecutive ints')
         return range(items[0], items[0] + len(items)) if items else range(0)
+    if kind == 'dict':
+        if not kind_ok(kind, codes):
+            raise BadCase('dict input needs distinct items')
+        return {x: None for x in items}
+    if kind == 'memoryview':
+        return memoryview(bytes(items))
+    if kind == 'array':
+        import array
+        return array.array('i', items)
+    if kind == 'iterable':
+        return BareIterable(items)
+    if kind == 'getitem':
+        return GetItemSeq(items)
     raise ValueError(kind)
 
 
@@ -169,8 +230,56 @@ def kcls(k):
     return int(k) + 1
 
 
-def key_callable(name):
+class _CallableObject:
+    """an instance with __call__ (callable, but neither a function nor a class)"""
+
+    def __init__(self, f):
+        self._f = f
+
+    def __call__(self, x):
+        return self._f(x)
+
+    def method(self, x):
+        return self._f(x)
+
+
+def as_callable_kind(f, kc, intvalued=False):
+    """round 3: the same function as another KIND of callable - every one satisfies callable():
+    'lambda' a plain function, 'partial' a functools.partial, 'object' an instance with __call__,
+    'method' a bound method, 'class' a class (an int subclass whose constructor computes the value; only for
+    int / bool valued functions, otherwise like 'object')"""
+    if kc in (None, 'lambda') or not callable(f):
+        return f
+    if kc == 'partial':
+        import functools
+        return functools.partial(lambda g, x: g(x), f)
+    if kc == 'object' or (kc == 'class' and not intvalued):
+        return _CallableObject(f)
+    if kc == 'method':
+        return _CallableObject(f).method
+    if kc == 'class':
+        return type('_KeyClass', (_IntKey,), {'_f': staticmethod(f)})
+    raise ValueError(kc)
+
+
+class _IntKey(int):
+    """calling the class computes `_f(x)`; the instance is that int (== and hash of the int)"""
+    _f = None
+
+    def __new__(cls, x):
+        return int.__new__(cls, cls._f(x))
+
+
+CALLABLE_KINDS = ('lambda', 'partial', 'object', 'method', 'class')
+
+
+def key_callable(name, kc=None):
     """the Python `key` argument for a key token (callable, attribute name, or None)"""
+    return as_callable_kind(_key_callable(name), kc,
+                            intvalued=name in ('bool', 'const') or name.startswith(('mod', 'div')))
+
+
+def _key_callable(name):
     if name == 'id':
         return None
     if name.startswith('mod'):
@@ -222,12 +331,16 @@ def opt(x):
     return '-' if x is None else str(x)
 
 
-def sep_token(sep):
+def sep_token(sep, sc=None):
     kind = sep[0]
     if kind == 'n':
         return 'n'
     if kind == 'v':
         return 'v%d' % sep[1]
+    if kind == 'y':
+        return 'kbytes:' + nats(sep[1])            # a bytes object as separator
+    if kind == 's' and sc is not None:
+        return 'k%s:%s' % (sc, nats(sep[1]))       # the separators held in a container of kind sc
     return kind + nats(sep[1])
 
 
@@ -239,7 +352,60 @@ def sep_classes(sep):
     if sep[0] == 't':
         # a str separator is a scalar: it equals a character item only if it is that one character
         return {cls(sep[1][0])} if len(sep[1]) == 1 else set()
+    if sep[0] == 'y':
+        return set()          # a bytes object equals no item
     return {cls(c) for c in sep[1]}
+
+
+# round 3: the Python object that holds the separators of an 's' separator (case['sc']); the default (no 'sc')
+# is a list for an odd number of separators and a tuple for an even number, as before
+SEP_CONTAINERS = ('list', 'tuple', 'set', 'frozenset', 'dict', 'deque', 'range', 'bytearray', 'memoryview',
+                  'gen', 'iter')
+SEP_INT_ONLY = ('range', 'bytearray', 'memoryview')       # containers of plain ints
+SEP_MUTABLE = ('list', 'set', 'dict', 'deque', 'bytearray')
+
+
+def sep_container_ok(sc, codes):
+    """can a container of kind `sc` hold exactly these separator codes?"""
+    if sc in ('bytearray', 'memoryview'):
+        return all(c >= 1 and tag(c) == 0 and val(c) < 256 for c in codes)
+    if sc == 'range':
+        return is_run(codes)
+    return True
+
+
+def mk_sep_container(sc, objs):
+    if sc == 'list':
+        return list(objs)
+    if sc == 'tuple':
+        return tuple(objs)
+    if sc == 'set':
+        return set(objs)
+    if sc == 'frozenset':
+        return frozenset(objs)
+    if sc == 'dict':
+        return {o: None for o in objs}
+    if sc == 'deque':
+        return collections.deque(objs)
+    if sc == 'range':
+        return range(objs[0], objs[0] + len(objs)) if objs else range(0)
+    if sc == 'bytearray':
+        return bytearray(objs)
+    if sc == 'memoryview':
+        return memoryview(bytes(objs))
+    if sc == 'gen':
+        return (o for o in objs)
+    if sc == 'iter':
+        return iter(objs)
+    raise ValueError(sc)
+
+
+def sample_objects():
+    """one object of every kind a caller may pass as `sep` (for the generated is_scalar / is_collection table)"""
+    return [('str', 'ab'), ('bytes', b'ab'), ('list', [1, 2]), ('tuple', (1, 2)), ('set', {1, 2}),
+            ('frozenset', frozenset((1, 2))), ('dict', {1: None}), ('deque', collections.deque([1])),
+            ('range', range(2)), ('bytearray', bytearray(b'ab')), ('memoryview', memoryview(b'ab')),
+            ('gen', (x for x in (1, 2))), ('iter', iter([1, 2]))]
 
 
 def flatten(ll):
@@ -265,7 +431,9 @@ class C09(Property):
             'aliases for chunked/windowed/pairwise; all lists up to 3 over {None, 0, False, 2} x separators None / 0 / '
             'False / 0.0 / empty and one-element collections / callables / str separators x maxsplit for split and '
             'strip; all lists up to 3 over {None, 0, 0.0, True, 1} x every key kind (identity, callable, attribute '
-            'with fallback, key list, default) for unique/redundant/bucketize/partition; small chunk_ranges with '
+            'with fallback, key list, default) for unique/redundant/bucketize/partition; the separators of split '
+            'held in every kind of iterable (list, tuple, set, frozenset, dict keys, deque, range, bytearray, '
+            'memoryview, generator, iterator) and a bytes object as separator; small chunk_ranges with '
             'float/bool arguments and defaults; chunk_ranges and chunk sizes at huge magnitudes near chunk '
             'boundaries. Then exhaustive: all lists up to length 6 (7 thorough) over {a, b, sep} for split/strip '
             'with every separator kind and maxsplit -1..5; lengths 0..8 x size -1..9 x count x fill for '
@@ -286,6 +454,69 @@ class C09(Property):
         'chunk sizes above sys.maxsize (rejected by itertools.islice) are not generated',
     ]
     CORRESPONDENCE_NAME = 'C09.Driver (iterutils helper models) vs boltons.iterutils functions'
+
+    # ------------------------------------------------------------------ translator hook
+    def regen(self):
+        """Generated/C09_SepKinds.lean: what the CURRENT boltons.iterutils answers about one object of every
+        kind a caller may pass as `sep` - callable(obj) (CPython), is_iterable / is_scalar / is_collection (boltons:
+        the functions split_iter's dispatch rests on).  Props.lean proves (by evaluation of this table) that the
+        answers are the ones the model's dispatch (`SepKind.facts`, `isScalar`, `isCollection`) uses."""
+        from boltons import iterutils as iu
+        rows = []
+        for name, obj in sample_objects():
+            rows.append('  ("%s", %s, %s, %s, %s)' % (name, *('true' if b else 'false' for b in (
+                callable(obj), bool(iu.is_iterable(obj)), bool(iu.is_scalar(obj)), bool(iu.is_collection(obj))))))
+        plain = []
+        for name, obj in (('None', None), ('int', 3), ('float', 2.5), ('bool', True), ('object', object())):
+            plain.append('  ("%s", %s, %s, %s, %s)' % (name, *('true' if b else 'false' for b in (
+                callable(obj), bool(iu.is_iterable(obj)), bool(iu.is_scalar(obj)), bool(iu.is_collection(obj))))))
+        import inspect
+        default_rows = []
+        for fname in ('chunked', 'chunk_ranges', 'windowed', 'windowed_iter', 'pairwise', 'pairwise_iter', 'split',
+                      'split_iter', 'lstrip', 'lstrip_iter', 'rstrip', 'rstrip_iter', 'strip', 'strip_iter',
+                      'unique', 'unique_iter', 'redundant', 'bucketize', 'partition'):
+            try:
+                params = inspect.signature(getattr(iu, fname)).parameters.values()
+            except Exception:
+                default_rows.append('  ("%s", "?", "?")' % fname)
+                continue
+            for prm in params:
+                if prm.default is inspect.Parameter.empty:
+                    continue
+                d = prm.default
+                if d is None or d is True or d is False or type(d) is int:
+                    text_d = repr(d)
+                elif d is bool:
+                    text_d = 'bool'
+                elif d is getattr(iu, '_UNSET', object()):
+                    text_d = '_UNSET'
+                else:
+                    text_d = 'other:' + type(d).__name__
+                default_rows.append('  ("%s", "%s", "%s")' % (fname, prm.name, text_d))
+        chunk_rows = []
+        for kind in KINDS3:
+            try:
+                ch = list(iu.chunked_iter(mk_src([4, 7, 10], kind), 2))
+                names = sorted({type(c).__name__ for c in ch})
+                tname = names[0] if len(names) == 1 else 'mixed'
+            except Exception as e:      # the table then disagrees with the model and the theorem names it
+                tname = 'raises'
+            chunk_rows.append('  ("%s", "%s")' % (kind, tname))
+        text = ('/- GENERATED by harness/bv/props/c09.py (regen) from the live boltons.iterutils - do not edit.\n'
+                '   One row per kind of object: (kind, callable(obj), is_iterable(obj), is_scalar(obj),\n'
+                '   is_collection(obj)) as answered by the current source for a sample object of that kind. -/\n'
+                'namespace C09.Generated\n\n'
+                '/-- strings and iterables that may hold separators -/\n'
+                'def sepKindTable : List (String × Bool × Bool × Bool × Bool) := [\n%s]\n\n'
+                '/-- objects that hold nothing: `None` and item values -/\n'
+                'def plainTable : List (String × Bool × Bool × Bool × Bool) := [\n%s]\n\n'
+                '/-- (function, parameter, default value) of every optional parameter, from the live signatures -/\n'
+                'def defaultsTable : List (String × String × String) := [\n%s]\n\n'
+                '/-- (input kind, type of the chunks `chunked_iter` yields for an input of that kind) -/\n'
+                'def chunkTypeTable : List (String × String) := [\n%s]\n\n'
+                'end C09.Generated\n') % (',\n'.join(rows), ',\n'.join(plain), ',\n'.join(default_rows),
+                                          ',\n'.join(chunk_rows))
+        return {'C09_SepKinds.lean': text}
 
     # ------------------------------------------------------------------ generation
     def cases(self, budget_s):
@@ -322,7 +553,7 @@ class C09(Property):
         numeric arguments given as float / bool, arguments left at their defaults or passed by keyword, and
         calls repeated on the same input object"""
         # -- chunked / windowed / pairwise
-        for kind in KINDS2:
+        for kind in KINDS3:
             ik = ikind(kind)
             for n in range(0, 5):
                 xs = [1 + 3 * i for i in range(n)]
@@ -367,6 +598,8 @@ class C09(Property):
                     for ms in (None, 0, 1, 2):
                         i += 1
                         case = {'op': 'split', 'kind': kinds[i % 5], 'xs': list(xs), 'sep': list(sep), 'ms': ms}
+                        if sep[0] == 'c':
+                            case['kc'] = CALLABLE_KINDS[i % 5]
                         if ms is not None:
                             a = (None, 'f', 'h', 'b', None, 'g', None)[i % 7]
                             if a:
@@ -387,6 +620,58 @@ class C09(Property):
                         continue
                     for ms in (None, 1):
                         yield {'op': 'split', 'kind': kind, 'xs': list(xs), 'sep': ['v', 4], 'ms': ms}
+        # -- round 3: the separators held in every kind of iterable (list, tuple, set, frozenset, dict keys, deque,
+        #    range, bytearray, memoryview, generator, one-shot iterator), and a bytes object as separator
+        ikinds = ('list', 'bytes', 'iter', 'bytearray', 'tuple', 'deque')
+        i = 0
+        for sc in SEP_CONTAINERS:
+            for n in range(0, 4):
+                for xs in itertools.product((4, 7, 10), repeat=n):
+                    for codes in ([], [4], [4, 7], [7, 4], [4, 7, 10], [10]):
+                        if not sep_container_ok(sc, codes):
+                            continue
+                        i += 1
+                        ms = (None, 1, None, 2, 0)[i % 5]
+                        case = {'op': 'split', 'kind': ikinds[i % 6], 'xs': list(xs), 'sep': ['s', codes], 'ms': ms,
+                                'sc': sc}
+                        if ikinds[i % 6] in REITERABLE and i % 4 == 0:
+                            case['twice'] = True
+                        yield case
+            if sc in SEP_INT_ONLY:
+                continue
+            for n in range(0, 4):
+                for xs in itertools.product(syms, repeat=n):
+                    for codes in ([0], [0, 7], [1, 3], [2], [3, 0, 1]):
+                        i += 1
+                        yield {'op': 'split', 'kind': kinds[i % 5], 'xs': list(xs), 'sep': ['s', codes],
+                               'ms': (None, 1, None, 2)[i % 4], 'sc': sc}
+            for xs in itertools.product((4, 7), repeat=3):
+                yield {'op': 'split', 'kind': 'str', 'xs': list(xs), 'sep': ['s', [4]], 'ms': None, 'sc': sc}
+        for n in range(0, 4):
+            for xs in itertools.product((4, 7), repeat=n):
+                for codes in ([], [4], [4, 7]):
+                    for kind in ('bytes', 'list', 'bytearray', 'str'):
+                        yield {'op': 'split', 'kind': kind, 'xs': list(xs), 'sep': ['y', codes], 'ms': None}
+        # -- round 3: every helper on the additional input kinds (dict keys, memoryview, array, a bare iterable,
+        #    an old-style __getitem__ sequence)
+        for kind in ('dict', 'memoryview', 'array', 'iterable', 'getitem'):
+            for n in range(0, 5):
+                for xs in ([4 + 3 * j for j in range(n)], [(4, 7, 4, 10, 4)[j] for j in range(n)],
+                           [(7, 4, 4, 7, 4)[j] for j in range(n)]):
+                    if not kind_ok(kind, xs):
+                        continue
+                    tw = {'twice': True}
+                    for sep in (['v', 4], ['s', [4, 7]], ['c', [4]], ['n']):
+                        for ms in (None, 1):
+                            yield dict({'op': 'split', 'kind': kind, 'xs': xs, 'sep': sep, 'ms': ms}, **tw)
+                    for op in ('lstrip', 'rstrip', 'strip'):
+                        yield dict({'op': op, 'kind': kind, 'xs': xs, 'v': 4}, **tw)
+                        yield dict({'op': op, 'kind': kind, 'xs': xs, 'v': 7}, **tw)
+                    for key in ('id', 'mod2', 'const'):
+                        yield dict({'op': 'unique', 'kind': kind, 'xs': xs, 'key': key}, **tw)
+                        yield dict({'op': 'redundant', 'kind': kind, 'xs': xs, 'key': key, 'groups': n % 2 == 0}, **tw)
+                        yield dict({'op': 'bucketize', 'kind': kind, 'xs': xs, 'key': key, 'vt': 'id', 'kf': None}, **tw)
+                        yield {'op': 'partition', 'kind': kind, 'xs': xs, 'key': key}
         # -- strip: None / 0 / False / 0.0 as strip value
         i = 0
         for n in range(0, 4):
@@ -416,8 +701,18 @@ class C09(Property):
                 if 0 not in xs:
                     keys += ['mod2', 'div2']
                 for key in keys:
+                    if key in ('bool', 'const', 'mod2', 'div2'):
+                        # round 3: the key as every kind of callable (function, partial, __call__ object, bound method,
+                        # builtin-based)
+                        kc = CALLABLE_KINDS[i % 5]
+                        yield {'op': 'unique', 'kind': kind, 'xs': xs, 'key': key, 'kc': kc}
+                        yield {'op': 'redundant', 'kind': kind, 'xs': xs, 'key': key, 'groups': bool(i % 2), 'kc': kc}
+                        yield {'op': 'bucketize', 'kind': kind, 'xs': xs, 'key': key, 'vt': ('id', 'sq')[0 not in xs and i % 2],
+                               'kf': (None, 1)[i % 2], 'kc': kc}
+                        yield {'op': 'partition', 'kind': kind, 'xs': xs, 'key': key, 'kc': kc}
                     yield dict({'op': 'unique', 'kind': kind, 'xs': xs, 'key': key}, **tw)
                     yield dict({'op': 'redundant', 'kind': kind, 'xs': xs, 'key': key, 'groups': False}, **tw)
+                    yield {'op': 'redundant', 'kind': kind, 'xs': xs, 'key': key, 'groups': False, 'dflt': True}
                     yield dict({'op': 'redundant', 'kind': kind, 'xs': xs, 'key': key, 'groups': True}, **tw)
                     yield dict({'op': 'bucketize', 'kind': kind, 'xs': xs, 'key': key, 'vt': 'id',
                                 'kf': (None, 0, 1, 2)[i % 4]}, **tw)
@@ -578,8 +873,11 @@ class C09(Property):
                          'redundant', 'bucketize', 'partition', 'chunk_ranges', 'chunk_ranges', 'pysplit', 'pystrip'])
         n = rng.randint(0, 60) if big else rng.randint(0, 14)
         if op in ('chunked', 'windowed', 'pairwise'):
-            kind = rng.choice(KINDS2)
-            if kind == 'range':
+            kind = rng.choice(KINDS3)
+            if kind == 'dict':
+                xs = [1 + 3 * v for v in rng.sample(range(max(n, 1) + 3), n)]
+                fill = rng.choice([None, 0, rng.choice([1, 2, 4, 6, 13])])
+            elif kind == 'range':
                 a = rng.randrange(6)
                 xs = [1 + 3 * (a + i) for i in range(n)]
                 fill = rng.choice([None, 0, rng.choice([1, 2, 4, 6, 13])])
@@ -634,6 +932,10 @@ class C09(Property):
                 kind = 'deque'
             case = {'op': op, 'kind': kind, 'xs': xs, 'sep': sep,
                     'ms': rng.choice([None, None, rng.randint(0, 5), rng.randint(0, 2), -1 if rng.random() < 0.2 else 1])}
+            if sep[0] == 's' and kind != 'str' and rng.random() < 0.5:
+                sc = rng.choice(SEP_CONTAINERS)
+                if sep_container_ok(sc, sep[1]):
+                    case['sc'] = sc
             r = rng.random()
             if r < 0.15 and case['ms'] is not None:
                 case['pa'] = {'ms': rng.choice('fhbg')}
@@ -669,10 +971,13 @@ class C09(Property):
                 key = rng.choice(KEYS_NUM)
                 none_ok = key in ('id', 'const', 'bool', 'real', 'imag', 'den', 'nope')
                 xs = self.random_items(rng, n, ncl, none_ok=none_ok)
+            kcx = {'kc': rng.choice(CALLABLE_KINDS)} if rng.random() < 0.3 else {}
             if op == 'unique':
-                return {'op': op, 'kind': kind, 'xs': xs, 'key': key}
+                return dict({'op': op, 'kind': kind, 'xs': xs, 'key': key}, **kcx)
             if op == 'redundant':
-                return {'op': op, 'kind': kind, 'xs': xs, 'key': key, 'groups': rng.random() < 0.5}
+                g = rng.random() < 0.5
+                return dict({'op': op, 'kind': kind, 'xs': xs, 'key': key, 'groups': g},
+                            **({'dflt': True} if not g and rng.random() < 0.3 else {}))
             if op == 'partition':
                 return dict({'op': op, 'kind': kind, 'xs': xs, 'key': key},
                             **({'dflt': True} if key == 'bool' and rng.random() < 0.5 else {}))
@@ -711,14 +1016,14 @@ class C09(Property):
     def line(self, case):
         op = case['op']
         if op == 'chunked':
-            return 'chunked %s %s %s %s' % (ptok(case, 'size'), ptok(case, 'count'), opt(case['fill']),
-                                            nats(case['xs']))
+            return 'chunkedk %s %s %s %s %s' % (case['kind'], ptok(case, 'size'), ptok(case, 'count'),
+                                                opt(case['fill']), nats(case['xs']))
         if op == 'windowed':
             return 'windowed %s %s %s' % (ptok(case, 'size'), opt(case['fill']), nats(case['xs']))
         if op == 'pairwise':
             return 'pairwise %s %s' % (opt(case['fill']), nats(case['xs']))
         if op == 'split':
-            return 'split %s %s %s' % (sep_token(case['sep']), ptok(case, 'ms'), nats(case['xs']))
+            return 'split %s %s %s' % (sep_token(case['sep'], case.get('sc')), ptok(case, 'ms'), nats(case['xs']))
         if op == 'pysplit':
             return '%s %s %s %s' % (op, sep_token(case['sep']), opt(case['ms']), nats(case['xs']))
         if op in ('lstrip', 'rstrip', 'strip'):
@@ -807,10 +1112,96 @@ class C09(Property):
             r2 = self.invoke(iu, case, it, src)
             if r2 != r:
                 raise BadValue('a second call on the same input object gave %r, the first gave %r' % (r2, r))
+            if it:
+                # round 3: two live generators over the same input object, advanced in lockstep
+                ra, rb = self.invoke(iu, case, it, src, interleave=True)
+                if ra != r or rb != r:
+                    raise BadValue('two interleaved generators on the same input gave %r and %r, a single one %r'
+                                   % (ra, rb, r))
         return r
 
-    def invoke(self, iu, case, it, src):
-        """one call of the real function on the prepared input object; result as codes"""
+    def _split_args(self, case, kind):
+        """(positional arguments after src, the mutable separator container or None)"""
+        dflt = bool(case.get('dflt'))
+        sep = case['sep']
+        ekind = kind if kind == 'str' else 'list'
+        sepobj = None
+        if sep[0] == 'n':
+            a = (None,)
+        elif sep[0] == 'v':
+            a = (dec(sep[1], ekind),)
+        elif sep[0] == 't':
+            a = (''.join(dec(c, 'str') for c in sep[1]),)
+        elif sep[0] == 'y':
+            a = (bytes(val(c) for c in sep[1]),)
+        elif sep[0] == 's':
+            objs = [dec(c, ekind) for c in sep[1]]
+            sc = case.get('sc')
+            if sc is None:
+                sepobj = objs if len(objs) % 2 else tuple(objs)
+            else:
+                if not sep_container_ok(sc, sep[1]) or ekind == 'str' and sc in SEP_INT_ONLY:
+                    raise BadCase('a %s cannot hold the separators %r' % (sc, sep[1]))
+                sepobj = mk_sep_container(sc, objs)
+                if sc not in SEP_MUTABLE:
+                    sepobj, keep = None, sepobj
+                    a = (keep,)
+            if sepobj is not None:
+                a = (sepobj,)
+        else:
+            classes = {cls(c) for c in sep[1]}
+            a = (as_callable_kind(lambda x: (0 if x is None else int(x) + 1) in classes, case.get('kc'), True),)
+        if case['ms'] is not None:
+            a = a + (pobj(case, 'ms'),)
+        elif dflt and sep[0] == 'n':
+            a = ()
+        return a, sepobj
+
+    def _iter_call(self, iu, case, src):
+        """the generator object of the *_iter form (not yet advanced)"""
+        op, kind = case['op'], case['kind']
+        if op in ('chunked', 'windowed', 'pairwise'):
+            kw = {}
+            if case['fill'] is not None:
+                kw['end' if op == 'pairwise' else 'fill'] = dec_fill(case['fill'], kind)
+            if op == 'chunked':
+                return iu.chunked_iter(src, pobj(case, 'size'), **kw)
+            if op == 'windowed':
+                return iu.windowed_iter(src, pobj(case, 'size'), **kw)
+            return iu.pairwise_iter(src, **kw)
+        if op == 'split':
+            a, _ = self._split_args(case, kind)
+            return iu.split_iter(src, *a)
+        if op in ('lstrip', 'rstrip', 'strip'):
+            return getattr(iu, op + '_iter')(src, dec(case['v'], kind if kind == 'str' else 'list'))
+        if op == 'unique':
+            k = key_callable(case['key'], case.get('kc'))
+            return iu.unique_iter(src, *(() if k is None else (k,)))
+        raise ValueError(op)
+
+    def invoke(self, iu, case, it, src, interleave=False):
+        """one call of the real function on the prepared input object; result as codes.  `interleave` (iter forms
+        only): the generator is created twice on the same input and the two are advanced alternately; returns both
+        results"""
+        if interleave:
+            outs = []
+            gens = []
+            for _ in range(2):
+                g = self._iter_call(iu, case, src)
+                gens.append(iter(g))
+                outs.append([])
+            live = [True, True]
+            while any(live):
+                for j in (0, 1):
+                    if live[j]:
+                        try:
+                            outs[j].append(next(gens[j]))
+                        except StopIteration:
+                            live[j] = False
+            op = case['op']
+            if op in ('chunked', 'windowed', 'pairwise', 'split'):
+                return [encl(c) for c in outs[0]], [encl(c) for c in outs[1]]
+            return encl(outs[0]), encl(outs[1])
         op = case['op']
         kind = case['kind']
         dflt = bool(case.get('dflt'))
@@ -831,7 +1222,11 @@ class C09(Property):
                 want = str if kind == 'str' else bytes
                 if not all(type(c) is want for c in r):
                     raise BadValue('chunk type %r' % [type(c).__name__ for c in r][:3])
-            return [encl(c) for c in r]
+            # round 3: the type of the chunks is part of the observation (the model has it: `chunkKind`)
+            out = ChunkList(encl(c) for c in r)
+            types = {type(c).__name__ for c in r}
+            out.ctype = types.pop() if len(types) == 1 else ('mixed' if types else None)
+            return out
         if op in ('windowed', 'pairwise'):
             kw = {}
             if case['fill'] is not None:
@@ -845,27 +1240,18 @@ class C09(Property):
         if op == 'split':
             sep = case['sep']
             ekind = kind if kind == 'str' else 'list'
-            sepobj = None
-            if sep[0] == 'n':
-                a = (None,)
-            elif sep[0] == 'v':
-                a = (dec(sep[1], ekind),)
-            elif sep[0] == 't':
-                a = (''.join(dec(c, 'str') for c in sep[1]),)
-            elif sep[0] == 's':
-                objs = [dec(c, ekind) for c in sep[1]]
-                sepobj = objs if len(objs) % 2 else tuple(objs)
-                a = (sepobj,)
-            else:
-                classes = {cls(c) for c in sep[1]}
-                a = (lambda x: (0 if x is None else int(x) + 1) in classes,)
-            if case['ms'] is not None:
-                a = a + (pobj(case, 'ms'),)
-            elif dflt and sep[0] == 'n':
-                a = ()
+            a, sepobj = self._split_args(case, kind)
             r = list(iu.split_iter(src, *a)) if it else iu.split(src, *a)
-            if sepobj is not None and list(sepobj) != [dec(c, ekind) for c in sep[1]]:
-                raise BadValue('the separator collection was modified by the call')
+            if sepobj is not None:
+                want = [dec(c, ekind) for c in sep[1]]
+                now = list(sepobj)
+                if type(sepobj) in (set, dict):
+                    same = len(now) == len(mk_sep_container('set', want)) and all(
+                        any(type(x) is type(y) and x == y for y in want) for x in now)
+                else:
+                    same = [(type(x), x) for x in now] == [(type(x), x) for x in want]
+                if not same:
+                    raise BadValue('the separator collection was modified by the call')
             return [encl(g) for g in r]
         if op in ('lstrip', 'rstrip', 'strip'):
             v = dec(case['v'], kind if kind == 'str' else 'list')
@@ -873,29 +1259,34 @@ class C09(Property):
             r = f(src) if (case['v'] == 0 and len(case['xs']) % 2) else f(src, v)
             return encl(list(r))
         if op == 'unique':
-            k = key_callable(case['key'])
+            k = key_callable(case['key'], case.get('kc'))
             a = () if k is None and len(case['xs']) % 2 else (k,)
             r = list(iu.unique_iter(src, *a)) if it else iu.unique(src, *a)
             return encl(r)
         if op == 'redundant':
-            k = key_callable(case['key'])
-            r = iu.redundant(src, key=k, groups=case['groups'])
+            k = key_callable(case['key'], case.get('kc'))
+            if dflt and k is None and not case['groups']:
+                r = iu.redundant(src)            # both optional arguments left at their defaults
+            elif dflt and not case['groups']:
+                r = iu.redundant(src, k)         # key positional, groups at its default
+            else:
+                r = iu.redundant(src, key=k, groups=case['groups'])
             return [encl(g) for g in r] if case['groups'] else encl(r)
         if op == 'bucketize':
             key = case['key']
-            k = [dec(c) for c in key[1]] if not isinstance(key, str) else key_callable(key)
+            k = [dec(c) for c in key[1]] if not isinstance(key, str) else key_callable(key, case.get('kc'))
             kw = {}
             if dflt and key == 'bool':
                 pass                      # key left at its default (bool)
             elif k is not None:
                 kw['key'] = k
             else:
-                kw['key'] = lambda x: x
+                kw['key'] = as_callable_kind(lambda x: x, case.get('kc'))
             if case['vt'] == 'sq':
-                kw['value_transform'] = lambda x: x * x
+                kw['value_transform'] = as_callable_kind(lambda x: x * x, case.get('kc'))
             if case['kf'] is not None:
                 kfc = case['kf']
-                kw['key_filter'] = lambda kk: kcls(kk) != kfc
+                kw['key_filter'] = as_callable_kind(lambda kk: kcls(kk) != kfc, case.get('kc'))
             r = iu.bucketize(src, **kw)
             if type(r) is not dict:
                 raise BadValue('bucketize returned %s' % type(r).__name__)
@@ -903,11 +1294,11 @@ class C09(Property):
                 raise BadValue('the key list was modified by the call')
             return [[kcls(kk), encl(vs)] for kk, vs in r.items()]
         if op == 'partition':
-            k = key_callable(case['key'])
+            k = key_callable(case['key'], case.get('kc'))
             if dflt and case['key'] == 'bool':
                 r = iu.partition(src)
             else:
-                r = iu.partition(src, (lambda x: x) if k is None else k)
+                r = iu.partition(src, as_callable_kind(lambda x: x, case.get('kc')) if k is None else k)
             return [encl(r[0]), encl(r[1])]
         raise ValueError(op)
 
@@ -928,7 +1319,16 @@ class C09(Property):
             return 'err ' + r['exc']
         v = r['ok']
         op = case['op']
-        if op in ('chunked', 'windowed', 'pairwise', 'split', 'pysplit') or (op == 'redundant' and case['groups']):
+        if op == 'chunked':
+            # no chunk: no type observed, the model's answer for this input kind is taken over
+            # the statement fixes the chunk type only where "concatenating gives back the input" needs it: str
+            # chunks for a str, bytes chunks for a bytes; for any other input the chunks are just sequences
+            if case['kind'] in ('str', 'bytes'):
+                ctype = getattr(v, 'ctype', None) or case['kind']
+            else:
+                ctype = 'seq'
+            return 'ok %s %s' % (ctype, show_ll(v))
+        if op in ('windowed', 'pairwise', 'split', 'pysplit') or (op == 'redundant' and case['groups']):
             return 'ok ' + show_ll(v)
         if op in ('lstrip', 'rstrip', 'strip', 'pystrip', 'unique', 'redundant'):
             return 'ok ' + nats(v)
@@ -975,6 +1375,8 @@ class C09(Property):
         if op == 'split':
             if case['sep'][0] == 't' and len(case['sep'][1]) != 1:
                 return False     # a multi-character (or empty) str separator has no str.split counterpart item-wise
+            if case['sep'][0] == 'y':
+                return False     # a bytes object as separator of an item sequence: equals no item, nothing is split
             return case['ms'] is None or case['ms'] >= 0
         if op == 'chunk_ranges':
             return case['size'] >= 0 and case['cs'] >= 1 and case['off'] >= 0 and 0 <= case['ov'] < case['cs']
@@ -1183,6 +1585,10 @@ class C09(Property):
 
     # ------------------------------------------------------------------ shrinking
     def shrink(self, case):
+        if case.get('kc'):
+            yield {k: v for k, v in case.items() if k != 'kc'}
+        if case.get('sc') not in (None, 'list'):
+            yield dict(case, sc='list')
         for f in ('twice', 'dflt', 'pa'):
             if case.get(f):
                 yield {k: v for k, v in case.items() if k != f}
@@ -1215,8 +1621,10 @@ class C09(Property):
             yield dict(case, kind='list')
         if case.get('kind') == 'bytearray':
             yield dict(case, kind='bytes')
-        if case.get('op') == 'split' and case['sep'][0] in ('s', 't', 'c') and case['sep'][1]:
+        if case.get('op') == 'split' and case['sep'][0] in ('s', 't', 'c', 'y') and case['sep'][1]:
             yield dict(case, sep=[case['sep'][0], case['sep'][1][:-1]])
+            if len(case['sep'][1]) > 1:
+                yield dict(case, sep=[case['sep'][0], case['sep'][1][1:]])
 
 
 def is_subsequence_multiset(small, big):
